@@ -14,12 +14,74 @@ RULE = "rule instances = (rule, site) pairs over MIR branches / stores / call si
 CONN = 'connection::Connection'
 
 
+# --------------------------------------------------------------------------
+# exact-value helpers (the operand IS x, not "mentions x somewhere")
+# --------------------------------------------------------------------------
+
+def _is_path_field(d, name):
+    """the value IS <connection>.path.<name> (refs / copies / derefs are already erased by the describer)"""
+    return d[0] == 'field' and d[2] == name and d[1][0] == 'field' and d[1][2] == 'path'
+
+
+def _is_param(d, name):
+    return d[0] == 'param' and d[2] == name
+
+
+def _is_event_remote(d):
+    """the `remote` field of a destructured event / datagram (rooted at a parameter, not a PathData)"""
+    if not (d[0] == 'field' and d[2] == 'remote') or _is_path_field(d, 'remote'):
+        return False
+    x = d
+    while x[0] in ('field', 'variant'):
+        x = x[1]
+    return x[0] == 'param'
+
+
+def _addr_rel(want, src=None):
+    """relation `want` (Eq/Ne) whose two operands ARE the packet's source address and path.remote themselves:
+    `remote.ip() != self.path.remote.ip()`, `remote.port() ..` are different relations"""
+    src = src or (lambda d: _is_param(d, 'remote'))
+    return lambda o, a, b: o == want and ((src(a) and _is_path_field(b, 'remote')) or (src(b) and _is_path_field(a, 'remote')))
+
+
+def _arith(d, op):
+    """operands of an arithmetic node, primitive (`bin`) or operator-trait form (`<Instant as Add>::add`), else None"""
+    if d[0] == 'bin' and d[1] == op:
+        return d[2], d[3]
+    if d[0] == 'call' and len(d[3]) == 2 and d[1].rsplit('::', 1)[-1] == op.lower() and (' as %s' % op) in d[1]:
+        return d[3][0], d[3][1]
+    return None
+
+
+def _enum_switches(F, body, ty_suffix):
+    """branches of `body` that switch on the discriminant of a place whose declared type is (a reference to) the enum"""
+    out = []
+    for br in branches(F, body):
+        if br.desc[0] != 'discr':
+            continue
+        op = body.blocks[br.bb]['t'][1]
+        if op[0] not in ('c', 'm') or op[1][1]:
+            continue
+        for st in reversed(body.blocks[br.bb]['s']):
+            if st[0] == '=' and st[1][0] == op[1][0] and not st[1][1] and st[2][0] == 'discr':
+                src = st[2][1]
+                ty = str(body.locals[src[0]][0]).replace('&mut ', '&').lstrip('&').strip()
+                if all(e == '*' for e in src[1]) and (ty == ty_suffix or ty.endswith('::' + ty_suffix)):
+                    out.append(br)
+                break
+    return out
+
+
+def _variant_discr(F, adt_pat, name):
+    return [int(v['discr']) for v in F.adt(adt_pat)['variants'] if v['name'] == name]
+
+
 def rule_a(ctx):
     F = ctx.facts
     he = ctx.pfn('Connection::handle_event')
     prot = [c.bb for c in he.calls_to('Connection::handle_decode')] + [w.bb for w in field_writes(F, 'paths::PathData', 'total_recvd', crate='quinn_proto') if F.root_of(w.body).id == he.id and w.kind == 'assign']
     mig = [br for br in branches(F, he) if D.has_call(br.desc, 'ConnectionSide::remote_may_migrate')]
-    ne = guard_edges(ctx, he, lambda o, a, b: o == 'Ne' and (D.has_field(a, 'remote') or D.has_field(b, 'remote')))
+    ne = guard_edges(ctx, he, _addr_rel('Ne', lambda d: _is_event_remote(d) or _is_param(d, 'remote')))
     ok = bool(mig) and bool(ne)
     for br in mig:
         # remote_may_migrate() == false edge reaches no processing
@@ -35,7 +97,7 @@ def rule_a(ctx):
     hp = ctx.pfn('Connection::handle_packet')
     dec = [c.bb for c in hp.calls_to('Connection::decrypt_packet')]
     hs = [br for br in branches(F, hp) if D.has_call(br.desc, 'Connection::is_handshaking')]
-    ne2 = guard_edges(ctx, hp, lambda o, a, b: o == 'Ne' and (D.has_param(a, name='remote') or D.has_param(b, name='remote')) and (D.has_field(a, 'remote') or D.has_field(b, 'remote')))
+    ne2 = guard_edges(ctx, hp, _addr_rel('Ne'))
     ok = bool(hs) and bool(ne2) and bool(dec)
     if ok:
         ok = False
@@ -53,7 +115,7 @@ def rule_b(ctx):
     pp = ctx.pfn('Connection::process_payload')
     m = pp.calls_to('Connection::migrate')
     sites = [c.bb for c in m]
-    guard_protects(ctx, 'b', 'migrate_only_from_new_address', pp, lambda o, a, b: o == 'Eq' and (D.has_param(a, name='remote') or D.has_param(b, name='remote')) and (D.has_field(a, 'remote') or D.has_field(b, 'remote')), sites, what='remote == path.remote')
+    guard_protects(ctx, 'b', 'migrate_only_from_new_address', pp, _addr_rel('Eq'), sites, what='remote == path.remote')
     guard_protects(ctx, 'b', 'migrate_only_for_highest_packet_number', pp, lambda o, a, b: o == 'Ne' and (D.has_param(a, name='number') or D.has_param(b, name='number')) and (D.has_field(a, 'rx_packet') or D.has_field(b, 'rx_packet')), sites, what='number != rx_packet')
     nb = branches(F, pp, stop_named=True)
     pr = [br for br in nb if peel_not(br.desc)[0][0] == 'local' and peel_not(br.desc)[0][2] == 'is_probing_packet']
@@ -121,14 +183,52 @@ def rule_c(ctx):
     st = mg.calls_to('TimerTable::set')
     ok = bool(st) and all(must_call(F, mg, ['TimerTable::set'], 0) for _ in [0]) and all(any(n[0] == 'agg' and n[2].endswith('Timer::PathValidation') for n in walk(arg_desc(F, c, 1))) for c in st)
     ctx.check(ok, 'c', 'path_validation_timer_always_armed', mg, mg.where(), 'timers.set(PathValidation, ..) on every path', 'migrate does not always arm the PathValidation timer')
+    # the path switch: the store to / `&mut` borrow of self.path itself (mem::replace(&mut self.path, new_path))
+    sw = [w for w in field_writes(F, CONN, 'path', crate='quinn_proto') if w.body.id == mg.id and w.kind in ('assign', 'mutborrow', 'callresult')
+          and isinstance(w.place[1][-1], list) and w.place[1][-1][0] == 'f' and w.place[1][-1][1] == 'path']
     for c in st:
         a = arg_desc(F, c, 2)
-        ok = D.has_param(a, name='now') and D.has_const(a, 3) and D.has_call(a, 'Connection::pto')
-        ctx.check(ok, 'c', 'path_validation_deadline', mg, c.where(), 'now + 3 * max(pto, prev_pto)', 'PathValidation deadline expression changed: ' + D.render(a)[:160])
+        why = _deadline_shape(mg, a, sw)
+        ctx.check(not why, 'c', 'path_validation_deadline', mg, c.where(), 'now + 3 * max(pto, prev_pto)', 'PathValidation deadline is not now + 3 * max(pto of the new path, pto of the previous path): %s: %s' % (why, D.render(a)[:160]))
     pp = ctx.pfn('Connection::process_payload')
     for c in pp.calls_to('Connection::migrate'):
         p = must_follow(F, pp, c.bb, ['Connection::update_rem_cid'], depth=0)
         ctx.check(p is None, 'c', 'migration_switches_remote_cid', pp, c.where(), 'migrate(..) followed by update_rem_cid()', 'migration is not followed by a remote CID switch')
+
+
+def _deadline_shape(mg, a, sw):
+    """'' when the value IS now + 3 * max(pto_a, pto_b) with one Connection::pto() evaluated before the path switch
+    (previous path) and the other after it (new path); otherwise the reason"""
+    top = _arith(a, 'Add')
+    if top is None:
+        return 'not a sum'
+    x, y = top
+    if _is_param(y, 'now'):
+        x, y = y, x
+    if not _is_param(x, 'now'):
+        return 'not based on `now`'
+    m = _arith(y, 'Mul')
+    if m is None:
+        return 'the interval is not a product'
+    k, v = m
+    if v[0] == 'const':
+        k, v = v, k
+    if not (k[0] == 'const' and k[1] == 'int' and str(k[2]) == '3' and not D.const_offsets(v)):
+        return 'the factor is not 3'
+    if not (v[0] == 'call' and v[1].rsplit('::', 1)[-1] == 'max' and len(v[3]) == 2):
+        return 'the interval is not 3 * max(.., ..)'
+    ptos = [q for q in v[3] if q[0] == 'call' and q[1] == 'Connection::pto']
+    if len(ptos) != 2 or ptos[0][4] == ptos[1][4]:
+        return 'max() is not taken over two distinct Connection::pto() results'
+    if not sw:
+        return 'no store to self.path found in migrate'
+    b1, b2 = ptos[0][4], ptos[1][4]
+    for w in sw:
+        before = [b for b in (b1, b2) if b != w.bb and mg.dominates(b, w.bb)]
+        after = [b for b in (b1, b2) if mg.dominates(w.bb, b)]
+        if len(before) != 1 or len(after) != 1:
+            return 'the two pto() values are not one from before and one from after the path switch'
+    return ''
 
 
 def rule_c2(ctx):
@@ -150,8 +250,10 @@ def rule_d(ctx):
     sites = [w.bb for w in field_writes(F, 'paths::PathData', 'validated', crate='quinn_proto') if F.root_of(w.body).id == pp.id and w.kind == 'assign']
     stops = [c.bb for c in pp.calls_to('TimerTable::stop') if any(n[0] == 'agg' and n[2].endswith('Timer::PathValidation') for n in walk(arg_desc(F, c, 1)))]
     ctx.floor('d', 'validation_success_sites', len(sites) + len(stops), 2)
-    es1 = guard_edges(ctx, pp, lambda o, a, b: o == 'Eq' and (D.has_field(a, 'challenge') or D.has_field(b, 'challenge')))
-    es2 = guard_edges(ctx, pp, lambda o, a, b: o == 'Eq' and (D.has_param(a, name='remote') or D.has_param(b, name='remote')) and (D.has_field(a, 'remote') or D.has_field(b, 'remote')))
+    def tok(x):
+        return x[0] == 'agg' and x[2] == 'option::Option::Some' and len(x[3]) == 1 and x[3][0][0] == 'field' and x[3][0][1][0] == 'variant' and x[3][0][1][2] == 'PathResponse'
+    es1 = guard_edges(ctx, pp, lambda o, a, b: o == 'Eq' and ((_is_path_field(a, 'challenge') and tok(b)) or (_is_path_field(b, 'challenge') and tok(a))))
+    es2 = guard_edges(ctx, pp, _addr_rel('Eq'))
     for name, es in (('token', es1), ('address', es2)):
         ok = all(any(pp.dominates(br.bb, s) and s not in pp.reachable_from(br.target(0 if truth else 1), avoid=[br.bb]) for br, truth, tgt in es) for s in sites + stops)
         ctx.check(ok and bool(es), 'd', 'path_response_needs_matching_' + name, pp, pp.where(), 'validation success only on matching ' + name, 'PATH_RESPONSE can validate the path without a matching ' + name)
@@ -171,8 +273,28 @@ def rule_e(ctx):
         # the for-loop continues; require the call to be in the same arm: dominated-by relation
         sl = [c for c in ht.calls_to('Connection::set_loss_detection_timer') if ht.dominates(w.bb, c.bb)]
         ctx.check(bool(sl), 'e', 'restored_path_rearms_loss_timer', ht, w.where(), 'set_loss_detection_timer after restoring', 'loss detection is not re-armed after reverting to the previous path')
-    cl = [w for w in field_writes(F, 'paths::PathData', 'challenge', crate='quinn_proto') if F.root_of(w.body).id == ht.id and w.kind == 'assign']
-    ctx.check(bool(cl), 'e', 'validation_timeout_clears_challenge', ht, ht.where(), 'path.challenge = None', 'the outstanding challenge is not cleared on timeout')
+    # self.path.challenge = None on EVERY path through the Timer::PathValidation arm (fallback or not), after any restore of self.path
+    pvd = _variant_discr(F, 'timer::Timer', 'PathValidation')
+    tsw = [br for br in _enum_switches(F, ht, 'timer::Timer') if pvd and any(v == pvd[0] for v, _ in br.edges)]
+    cl = [w for w, v in store_values(ctx, 'paths::PathData', 'challenge', in_fn=ht)
+          if w.body.id == ht.id and _is_path_field(d.place(w.place, w.bb, w.idx), 'challenge') and v[0] == 'agg' and v[2] == 'option::Option::None']
+    cb = {w.bb for w in cl}
+    goals = set(ht.return_blocks()) | {br.bb for br in tsw}
+    why = ''
+    if not tsw:
+        why = 'no match on Timer with a PathValidation arm found in handle_timeout'
+    elif not cl:
+        why = 'no store self.path.challenge = None'
+    for br in tsw:
+        pth = path_avoiding(ht, [br.target(pvd[0])], goals, cb)
+        if pth is not None and not why:
+            why = 'a path through the PathValidation arm skips the store: ' + fmt_path(ht, pth)
+    for w in pw:
+        if w.body.id == ht.id and not any(c.bb == w.bb and c.idx > w.idx for c in cl):
+            pth = path_avoiding(ht, ht.succ[w.bb], goals, cb)
+            if pth is not None and not why:
+                why = 'the restored path keeps its challenge (no clearing store after self.path = prev): ' + fmt_path(ht, pth)
+    ctx.check(not why, 'e', 'validation_timeout_clears_challenge', ht, ht.where(), 'path.challenge = None on every path of the PathValidation arm', 'the outstanding challenge is not always cleared on timeout: ' + why)
 
 
 def rule_f(ctx):
@@ -180,13 +302,77 @@ def rule_f(ctx):
     pp = ctx.pfn('Connection::process_payload')
     ps = pp.calls_to('PathResponses::push')
     ctx.floor('f', 'challenge_response_queue_sites', len(ps), 1)
+    pcd = _variant_discr(F, 'frame::Frame', 'PathChallenge')
+    on_path = guard_edges(ctx, pp, _addr_rel('Eq'))
+    prov = {x.bb for x in pp.calls_to('Connection::immediate_ack', 'Connection::ping')}
     for c in ps:
-        ok = D.has_param(arg_desc(F, c, 3), name='remote') and D.has_param(arg_desc(F, c, 1), name='number')
+        ok = all(_is_param(x, 'remote') for x in flat(arg_desc(F, c, 3))) and all(_is_param(x, 'number') for x in flat(arg_desc(F, c, 1)))
         ctx.check(ok, 'f', 'response_addressed_to_challenger', pp, c.where(), 'push(number, token, remote)', 'the PATH_RESPONSE is not queued for the address the challenge came from')
-        im = [x for x in pp.calls_to('Connection::immediate_ack', 'Connection::ping') if pp.dominates(c.bb, x.bb)]
-        ctx.check(len(im) >= 2, 'f', 'on_path_challenge_provokes_non_probing_packet', pp, c.where(), 'immediate_ack()/ping() when remote == path.remote', 'an on-path PATH_CHALLENGE no longer provokes a non-probing packet')
+        # the match arm the challenge is handled in: the Frame switch whose PathChallenge edge (and no other) leads to the push
+        arms = [br for br in _enum_switches(F, pp, 'frame::Frame') if pcd and any(v == pcd[0] for v, _ in br.edges)
+                and c.bb in pp.reachable_from(br.target(pcd[0]), avoid=[br.bb])
+                and not any(c.bb in pp.reachable_from(t, avoid=[br.bb]) for _, t in br.edges if t != br.target(pcd[0]))]
+        why = '' if arms else 'no Frame::PathChallenge match arm leading to the push found'
+        for arm in arms:
+            t0 = arm.target(pcd[0])
+            region = pp.reachable_from(t0, avoid=[arm.bb])
+            goals = set(pp.return_blocks()) | {arm.bb}
+            gs = [(br, truth, tgt) for br, truth, tgt in on_path if br.bb in region and pp.dominates(t0, br.bb)]
+            # on the edge where remote == path.remote holds, every path provokes a packet before the frame is done
+            for br, truth, tgt in gs:
+                pth = path_avoiding(pp, [tgt], goals, prov)
+                if pth is not None:
+                    why = why or 'on the `remote == path.remote` edge a path reaches the next frame without immediate_ack()/ping(): ' + fmt_path(pp, pth)
+            # and the test cannot be bypassed (no test at all is fine only if every path provokes)
+            pth = path_avoiding(pp, [t0], goals, prov | {br.bb for br, _, _ in gs})
+            if pth is not None:
+                why = why or 'a path through the arm neither evaluates `remote == path.remote` nor provokes a packet: ' + fmt_path(pp, pth)
+        ctx.check(not why, 'f', 'on_path_challenge_provokes_non_probing_packet', pp, c.where(), 'immediate_ack()/ping() when remote == path.remote', 'an on-path PATH_CHALLENGE no longer provokes a non-probing packet: ' + why)
     pr = ctx.pfn('PathResponses::push')
-    ctx.check(bool(pr.calls_to('Iterator::find')) or bool([c for c in pr.calls() if short(c.f).endswith('::find')]), 'f', 'one_response_per_remote', pr, pr.where(), 'existing entry for the remote is updated', 'PathResponses no longer keeps one entry per remote')
+    why = _dedup_by_remote(F, pr)
+    ctx.check(not why, 'f', 'one_response_per_remote', pr, pr.where(), 'existing entry for the remote is updated', 'PathResponses no longer keeps one entry per remote: ' + why)
+
+
+def _dedup_by_remote(F, pr):
+    """'' when push() looks an existing entry up by `entry.remote == remote` and queues a new one only when none was found"""
+    finds = [c for c in pr.calls() if c.bb in pr.live_blocks() and short(c.f).rsplit('::', 1)[-1] == 'find' and D.has_field(arg_desc(F, c, 0), 'pending')]
+    if not finds:
+        return 'no lookup (find) over self.pending'
+    vp = [c.bb for c in pr.calls_to('Vec::push') if D.has_field(arg_desc(F, c, 0), 'pending')]
+    if not vp:
+        return 'no Vec::push on self.pending'
+    for c in finds:
+        cls = closure_args(F, c)
+        caps = [x for x in walk(arg_desc(F, c, 1)) if x[0] == 'agg' and x[1] == 'closure']
+        def cap_remote(a):
+            # the captured value is the `remote` parameter, or the new PathResponse{.., remote} built from it
+            if a[0] == 'agg' and a[1] == 'adt' and len(a) > 4 and 'remote' in a[4]:
+                a = a[3][a[4].index('remote')]
+            return _is_param(a, 'remote')
+        if not cls or not caps or not all(any(cap_remote(a) for a in x[3]) for x in caps):
+            return 'the lookup predicate does not capture the `remote` parameter'
+        for cb in cls:
+            rets = [y for _, x in ret_descs(F, cb) for y in flat(x)]
+            if not rets:
+                return 'lookup predicate has no return value'
+            for y in rets:
+                rel = relation_on(y, True)
+                if rel is None or rel[0] != 'Eq':
+                    return 'the lookup predicate is not an equality: ' + D.render(y)[:80]
+                a, b = rel[1], rel[2]
+                if not (b[0] == 'upvar' or (b[0] == 'field' and b[1][0] == 'upvar')):
+                    a, b = b, a
+                cap = b == ('upvar', 'remote') or (b[0] == 'field' and b[2] == 'remote' and b[1][0] == 'upvar')
+                if not (cap and a[0] == 'field' and a[2] == 'remote' and a[1][0] == 'param'):
+                    return 'the lookup predicate compares %s, not entry.remote == remote' % D.render(y)[:80]
+        # found -> no new entry: the Some edge of the lookup result never reaches Vec::push, and the test dominates every push
+        brs = [br for br in branches(F, pr) if br.desc[0] == 'discr' and is_site(br.desc[1], c)]
+        if not brs:
+            return 'the lookup result is not tested'
+        for p in vp:
+            if not any(pr.dominates(br.bb, p) and p not in pr.reachable_from(br.target(1), avoid=[br.bb]) for br in brs):
+                return 'a new entry is pushed even when one exists for the remote'
+    return ''
 
 
 def rule_g(ctx):
